@@ -608,6 +608,15 @@ def impl(case):
             return run_top(case)
         if op == 9:
             return run_legacy(case)
+        if op == 10:
+            q = dns.message.make_query(ORIGIN, case[1])
+            if case[2] is not None:
+                rrset = q.find_rrset(q.authority, ORIGIN, IN, SOA, create=True)
+                rrset.add(mk_rdata(IN, SOA, 0, case[2], False), 0)
+            try:
+                return dns.xfr.extract_serial_from_query(q)
+            except Exception as e:  # noqa
+                return exc_code(e)
     except Exception as e:  # noqa  (harness-level failure: build_zone, rendering ...)
         return Err(950, "harness:" + type(e).__name__ + ":" + str(e))
     raise ValueError("bad op")
@@ -1391,6 +1400,9 @@ def misc_cases(ctx, rng):
     for _ in range(ctx.n(100, 1000)):
         yield "serial-add", [7, rng.choice(edge + [rng.randrange(T32)]),
                              rng.choice([0, 1, -1, 2 ** 31 - 1, 2 ** 31, -(2 ** 31 - 1), -(2 ** 31), rng.randrange(-2 ** 31, 2 ** 31)])]
+    for qt in [AXFR, IXFR, SOA, A]:
+        for au in [None, 0, 7, 2 ** 32 - 1]:
+            yield "extract", [10, qt, au]
     for zs in [None, 1, 77, 2 ** 32 - 1, 5]:
         for ser in [None, 0, 1, 5, 2 ** 32 - 1, 2 ** 32, -1, 2 ** 33]:
             yield "make_query", [3, zs, ser]
